@@ -412,7 +412,16 @@ func jobsFor(prop, tier string) []*Job {
 					add("alias/S/"+tn(t), "ZZ_C14_alias_s", []string{"alias"}, sh.Args()...)
 				}
 				for _, sh := range smallWireShapes(t, thorough) {
-					add("interf/"+tn(t), "ZZ_C14_interf", []string{"interf"}, sh.Args()...)
+					n := setterCount[t]
+					if n == 0 {
+						add("interf/"+tn(t), "ZZ_C14_interf", []string{"interf"}, append([]int{-1}, sh.Args()...)...)
+					}
+					for k := 0; k < n; k++ {
+						add("interf/"+tn(t), "ZZ_C14_interf", []string{"interf"}, append([]int{k}, sh.Args()...)...)
+					}
+					if thorough && t != 1 && t != 2 {
+						add("interf/"+tn(t), "ZZ_C14_interf", []string{"interf"}, append([]int{-1}, sh.Args()...)...)
+					}
 				}
 			}
 		}
